@@ -94,7 +94,7 @@ Print Assumptions C03_fields_unique.
 (* the executable checker decides the layout (run on the implementation's bytes by the harness) *)
 Theorem C03_checker : forall mac off k b fs,
   check_layout mac off k b = Ok fs <-> is_bf3_body mac off k fs b.
-Proof. intros. apply check_layout_gen_iff. Qed.
+Proof. intros mac off k b fs. exact (check_layout_gen_iff mac true off k b fs). Qed.
 Print Assumptions C03_checker.
 
 (* the BEC2 header: serialiser and parser are inverse on the documented TLV shape *)
@@ -148,6 +148,6 @@ Example C03_nonvacuous :
   (let* b := to_binary (adapter_encrypt toyE) (adapter_mac toyE) c03_ex 65536 (zeros 16) in
    let* fs := check_layout (adapter_mac toyE) 65536 (zeros 16) b in
    Ok (map (fun f => (ef_adr (fr_entry f), ef_total (fr_entry f), ef_actual (fr_entry f), ef_tags (fr_entry f))) fs))
-  = Ok [(65536 + 4 + 97, 3, 2, [(0xC3, [x02]); (0x00, [])]); (65536 + 4 + 97 + 3, 16, 4, [(0xC2, [x02])])].
+  = Ok [(65536 + 4 + 101, 3, 2, [(0xC3, [x02]); (0x00, [])]); (65536 + 4 + 101 + 3, 16, 4, [(0xC2, [x02])])].
 Proof. vm_compute. reflexivity. Qed.
 Print Assumptions C03_nonvacuous.
